@@ -38,6 +38,7 @@ EXPLANATION = 'Bounds on frames written per query and on deadlines, progress of 
 
 
 STREAMS = _a.STREAMS + [
+    simlib.storm_stream(simprops.mon_c06),
     simlib.sim_stream("retries", {"tries": [1, 2, 5, 9, 20], "nservers": [1, 2, 3, 5], "timeouts": [250, 300, 1000, 5000, 20000],
                                   "maxtimeout_prob": 0.5, "reply_kinds": [("servfail", 20), ("refused", 8), ("notimp", 4), ("tc", 8),
                                   ("noerror", 10), ("garbage", 4), ("formerr", 3), ("nxdomain", 3)], "sockfail_w": 0.06},
